@@ -49,3 +49,12 @@ package shared
 //@   ensures len(s) > 0 ==> 1 <= result1 && result1 <= 4 && result1 <= len(s)
 //@   ensures len(s) > 0 && s[0] < 128 ==> result0 == int32(s[0]) && result1 == 1
 //@   ensures len(s) > 0 && s[0] >= 128 ==> result0 >= 128 && result0 <= 1114111
+
+// utf8.DecodeLastRuneInString: width of the last rune and the ASCII fast path
+//@ func unicode/utf8.DecodeLastRuneInString
+//@   trusted
+//@   opt pure
+//@   ensures len(s) == 0 ==> result0 == 65533 && result1 == 0
+//@   ensures len(s) > 0 ==> 1 <= result1 && result1 <= 4 && result1 <= len(s)
+//@   ensures len(s) > 0 && s[len(s)-1] < 128 ==> result0 == int32(s[len(s)-1]) && result1 == 1
+//@   ensures len(s) > 0 && s[len(s)-1] >= 128 ==> result0 >= 128 && result0 <= 1114111
